@@ -102,6 +102,26 @@ theorem zzModW_spec (w : Nat) (a : List Nat) (x : Nat) (ha : Wf w a) (hx0 : 0 < 
 
 example : zzModW 8 [255, 255, 255] 10 = 5 := by decide
 
+/-- zzModW2 (regular body): for `w != 0 && w^2 <= B` the result is `a mod w`; the two
+    normalisation steps suffice and no double word wraps (the bounds of the comment block). -/
+theorem zzModW2_spec (w : Nat) (a : List Nat) (x : Nat) (ha : Wf w a) (hx0 : 0 < x)
+    (hxx : x * x ≤ 2 ^ w) : zzModW2 w a x = val w a % x :=
+  Mul.zzModW2_spec w a x ha hx0 hxx
+
+/-- zzModW2 (`SAFE_FAST` body): the `while` loop ends after at most two iterations (the fuel of the
+    model is not exhausted) and the result is `a mod w`. -/
+theorem zzModW2F_spec (w : Nat) (a : List Nat) (x : Nat) (ha : Wf w a) (hx0 : 0 < x)
+    (hxx : x * x ≤ 2 ^ w) : zzModW2F w a x = val w a % x :=
+  Mul.zzModW2F_spec w a x ha hx0 hxx
+
+/-- both bodies of zzModW2 agree (and agree with zzModW) under the header's precondition. -/
+theorem zzModW2F_eq (w : Nat) (a : List Nat) (x : Nat) (ha : Wf w a) (hx0 : 0 < x)
+    (hxx : x * x ≤ 2 ^ w) : zzModW2F w a x = zzModW2 w a x := by
+  rw [Mul.zzModW2F_spec w a x ha hx0 hxx, Mul.zzModW2_spec w a x ha hx0 hxx]
+
+example : zzModW2 8 [255, 255, 255] 15 = 0 ∧ zzModW2F 8 [255, 255, 255] 13 = 0
+    ∧ zzModW2 8 [255, 255, 255] 16 = 15 ∧ 16 * 16 ≤ 2 ^ 8 := by decide
+
 /-! ## Montgomery reduction -/
 
 /-- SAFE(zzRedMont): for `mod = m0 :: ms` (`n = |mod| ≥ 1` words), `|a| = 2n`,
@@ -161,5 +181,47 @@ example : Wf 8 [255, 255, 250, 3] ∧ Wf 8 [251, 3] ∧ (251 * 205 + 1) % 2 ^ 8 
     ∧ val 8 [255, 255, 250, 3] < val 8 [251, 3] * 2 ^ (8 * 2) := by decide
 example : zzRedMont_safe 8 [255, 255, 250, 3] [251, 3] 205 = [58, 2] := by decide
 example : zzRedMont_fast 8 [255, 255, 250, 3] [251, 3] 205 = [58, 2] := by decide
+
+/-! ## Crandall reduction -/
+
+/-- SAFE(zzRedCrand): for `mod = m0 :: ms` with `0 < m0` and every higher word `B - 1`
+    (i.e. `mod = B^n - c`, `0 < c < B`), `n = |mod| ≥ 2`, `|a| = 2n`:
+    the result is `a mod mod` exactly, `n` words. -/
+theorem zzRedCrand_safe_spec (w : Nat) (m0 : Nat) (ms a : List Nat) (ha : Wf w a)
+    (hm0 : 0 < m0) (hm0B : m0 < 2 ^ w) (hms : ∀ x ∈ ms, x = 2 ^ w - 1) (hn : 2 ≤ (m0 :: ms).length)
+    (hl : a.length = (m0 :: ms).length + (m0 :: ms).length) :
+    val w (zzRedCrand_safe w a (m0 :: ms)) = val w a % val w (m0 :: ms)
+    ∧ val w (zzRedCrand_safe w a (m0 :: ms)) < val w (m0 :: ms)
+    ∧ Wf w (zzRedCrand_safe w a (m0 :: ms))
+    ∧ (zzRedCrand_safe w a (m0 :: ms)).length = (m0 :: ms).length := by
+  have hms1 : 0 < ms.length := by simp at hn; omega
+  rw [zzRedCrand_safe_eq w m0 ms a ha hm0 hm0B hms hms1 hl]
+  exact crandRes_spec w m0 ms a ha hm0 hm0B hms hms1 hl
+
+/-- FAST(zzRedCrand): the same statement. -/
+theorem zzRedCrand_fast_spec (w : Nat) (m0 : Nat) (ms a : List Nat) (ha : Wf w a)
+    (hm0 : 0 < m0) (hm0B : m0 < 2 ^ w) (hms : ∀ x ∈ ms, x = 2 ^ w - 1) (hn : 2 ≤ (m0 :: ms).length)
+    (hl : a.length = (m0 :: ms).length + (m0 :: ms).length) :
+    val w (zzRedCrand_fast w a (m0 :: ms)) = val w a % val w (m0 :: ms)
+    ∧ val w (zzRedCrand_fast w a (m0 :: ms)) < val w (m0 :: ms)
+    ∧ Wf w (zzRedCrand_fast w a (m0 :: ms))
+    ∧ (zzRedCrand_fast w a (m0 :: ms)).length = (m0 :: ms).length := by
+  have hms1 : 0 < ms.length := by simp at hn; omega
+  rw [zzRedCrand_fast_eq w m0 ms a ha hm0 hm0B hms hms1 hl]
+  exact crandRes_spec w m0 ms a ha hm0 hm0B hms hms1 hl
+
+/-- SAFE(zzRedCrand) = FAST(zzRedCrand) under the header's preconditions. -/
+theorem zzRedCrand_safe_eq_fast (w : Nat) (m0 : Nat) (ms a : List Nat) (ha : Wf w a)
+    (hm0 : 0 < m0) (hm0B : m0 < 2 ^ w) (hms : ∀ x ∈ ms, x = 2 ^ w - 1) (hn : 2 ≤ (m0 :: ms).length)
+    (hl : a.length = (m0 :: ms).length + (m0 :: ms).length) :
+    zzRedCrand_safe w a (m0 :: ms) = zzRedCrand_fast w a (m0 :: ms) := by
+  have hms1 : 0 < ms.length := by simp at hn; omega
+  rw [zzRedCrand_safe_eq w m0 ms a ha hm0 hm0B hms hms1 hl,
+    zzRedCrand_fast_eq w m0 ms a ha hm0 hm0B hms hms1 hl]
+
+-- non-vacuity: mod = B^3 - 17, a = B^6 - 1, w = 8
+example : Wf 8 [255, 255, 255, 255, 255, 255] ∧ (0 < 239 ∧ 239 < 2 ^ 8) ∧ (∀ x ∈ [255, 255], x = 2 ^ 8 - 1) := by decide
+example : zzRedCrand_safe 8 [255, 255, 255, 255, 255, 255] [239, 255, 255] = [32, 1, 0] := by decide
+example : zzRedCrand_fast 8 [255, 255, 255, 255, 255, 255] [239, 255, 255] = [32, 1, 0] := by decide
 
 end Bee2V.C05
